@@ -289,7 +289,9 @@ impl<'a> Gen<'a> {
         }
         if self.pct(1) && depth_left > 0 {
             let to = self.users[2].clone();
-            for i in 0..self.rng.range(33, 70) {
+            // dozens, now and then more messages than a byte counts
+            let many = if self.pct(20) { self.rng.range(257, 300) } else { self.rng.range(33, 70) };
+            for i in 0..many {
                 s.msgs.push(Sub { id: i, mode: RMode::Never, payload: Payload::Raw(Binary::default()), msg: Msg::BankSend { to: to.clone(), coins: vec![coin(1, "ua")] } });
             }
         }
